@@ -7,6 +7,7 @@
   correspondence run executes at f32/f64.
 -/
 import PaletteProofs.C09_Diff
+import PaletteProofs.C09_Ciede2000
 
 namespace C09
 open Diff
@@ -100,6 +101,51 @@ theorem relativeContrast_mono_lighter (d l l' : ℝ) (hd : 0 ≤ d) (h : d ≤ l
   rw [relativeContrast_closed, relativeContrast_closed, max_eq_left h, min_eq_right h,
     max_eq_left (le_trans h h'), min_eq_right (le_trans h h')]
   gcongr
+
+/-! ## the improved variants are order-isomorphic rescalings of the plain measures
+
+`ImprovedDeltaE` / `ImprovedCiede2000` apply `k · d^e` with `k > 0`, `0 < e`: strictly increasing on `d ≥ 0`, so they rank every two pairs of
+colours exactly as the plain measure does and vanish exactly where it does. -/
+
+theorem scaled_rpow_lt_iff {k e : ℝ} (hk : 0 < k) (he : 0 < e) {d d' : ℝ} (hd : 0 ≤ d) (hd' : 0 ≤ d') :
+    k * d ^ e < k * d' ^ e ↔ d < d' := by
+  rw [mul_lt_mul_iff_right₀ hk, Real.rpow_lt_rpow_iff hd hd' he]
+
+theorem scaled_rpow_eq_zero_iff {k e : ℝ} (hk : 0 < k) (he : 0 < e) {d : ℝ} (hd : 0 ≤ d) : k * d ^ e = 0 ↔ d = 0 := by
+  rw [mul_eq_zero, Real.rpow_eq_zero_iff_of_nonneg hd]
+  constructor
+  · rintro (h | ⟨h, _⟩)
+    · exact absurd h hk.ne'
+    · exact h
+  · intro h; exact Or.inr ⟨h, he.ne'⟩
+
+/-- improved ΔE (Lab) ranks pairs as ΔE does -/
+theorem improvedDeltaELab_lt_iff (x1 x2 x3 y1 y2 y3 u1 u2 u3 v1 v2 v3 : ℝ) :
+    improvedDeltaELab x1 x2 x3 y1 y2 y3 < improvedDeltaELab u1 u2 u3 v1 v2 v3 ↔ dist3 x1 x2 x3 y1 y2 y3 < dist3 u1 u2 u3 v1 v2 v3 := by
+  rw [improvedDeltaELab_closed, improvedDeltaELab_closed]
+  exact scaled_rpow_lt_iff (by norm_num) (by norm_num) (dist3_nonneg ..) (dist3_nonneg ..)
+/-- improved ΔE (CAM16-UCS Jab) ranks pairs as ΔE does -/
+theorem improvedDeltaEJab_lt_iff (x1 x2 x3 y1 y2 y3 u1 u2 u3 v1 v2 v3 : ℝ) :
+    improvedDeltaEJab x1 x2 x3 y1 y2 y3 < improvedDeltaEJab u1 u2 u3 v1 v2 v3 ↔ dist3 x1 x2 x3 y1 y2 y3 < dist3 u1 u2 u3 v1 v2 v3 := by
+  rw [improvedDeltaEJab_closed, improvedDeltaEJab_closed]
+  exact scaled_rpow_lt_iff (by norm_num) (by norm_num) (dist3_nonneg ..) (dist3_nonneg ..)
+/-- improved CIEDE2000 ranks pairs as CIEDE2000 does -/
+theorem improvedOfCiede_lt_iff {d d' : ℝ} (hd : 0 ≤ d) (hd' : 0 ≤ d') : improvedOfCiede d < improvedOfCiede d' ↔ d < d' := by
+  rw [improvedOfCiede_closed, improvedOfCiede_closed]
+  exact scaled_rpow_lt_iff (by norm_num) (by norm_num) hd hd'
+/-- … and they separate exactly as the plain measures do -/
+theorem improvedDeltaELab_eq_zero_iff (x1 x2 x3 y1 y2 y3 : ℝ) :
+    improvedDeltaELab x1 x2 x3 y1 y2 y3 = 0 ↔ (x1 = y1 ∧ x2 = y2 ∧ x3 = y3) := by
+  rw [improvedDeltaELab_closed, scaled_rpow_eq_zero_iff (by norm_num) (by norm_num) (dist3_nonneg ..), dist3_eq_zero_iff]
+theorem improvedDeltaEJab_eq_zero_iff (x1 x2 x3 y1 y2 y3 : ℝ) :
+    improvedDeltaEJab x1 x2 x3 y1 y2 y3 = 0 ↔ (x1 = y1 ∧ x2 = y2 ∧ x3 = y3) := by
+  rw [improvedDeltaEJab_closed, scaled_rpow_eq_zero_iff (by norm_num) (by norm_num) (dist3_nonneg ..), dist3_eq_zero_iff]
+theorem improvedOfCiede_eq_zero_iff {d : ℝ} (hd : 0 ≤ d) : improvedOfCiede d = 0 ↔ d = 0 := by
+  rw [improvedOfCiede_closed]; exact scaled_rpow_eq_zero_iff (by norm_num) (by norm_num) hd
+/-- for real CIEDE2000 values (always ≥ 0): the improved variant is an order-embedding of the difference -/
+theorem improvedCiede2000_lt_iff (x y u v : LabColorDiff ℝ) :
+    improvedOfCiede (ciede2000 x y) < improvedOfCiede (ciede2000 u v) ↔ ciede2000 x y < ciede2000 u v :=
+  improvedOfCiede_lt_iff (ciede2000_nonneg x y) (ciede2000_nonneg u v)
 
 /-- non-vacuity: a 3-4-5 witness, where the triangle inequality is strict for Euclid and tight for a collinear triple -/
 example : dist3 (0:ℝ) 0 0 3 4 0 = 5 := by
